@@ -188,8 +188,8 @@ CLAIMED.update({
               'uninterrupted run) and status restoration are decided by the correspondence and the monitors against the '
               'uninterrupted run of the same program; they are not yet theorems.'),
     'C06': pm('History level, for every program and every history in which no callback of the stepping task runs out of the model\'s '
-              'fuel (H6.histFuelOk: < 1000 synchronous steps in one callback; C06_witness_fuel_exhaustion shows the hypothesis is '
-              'needed in the model): C06_delivery (in every reachable configuration whose WAITING state holds an outcome v - in its '
+              'fuel (H6.histFuelOk: < 1000 synchronous steps in one callback; C06_witness_fuel_exhaustion / C06_first_resume_wins_full_is_false show the '
+              'hypothesis is needed in the model): C06_delivery (in every reachable configuration whose WAITING state holds an outcome v - in its '
               'future or parked - and that is playing with no pause/kill request pending, ONE more callback of the stepping task '
               'activates the continuation with exactly v\'s arguments: never WAITING for ever), C06_first_resume_wins (after an '
               'accepted resume(v), whatever follows - later resumes, pause/play, interruptions re-arming the wait, kill, fail, '
